@@ -272,7 +272,7 @@ func TestCheck(t *testing.T) {
 		}
 	}
 	// pairs of hostile names (thorough: all pairs of a sub-corpus; quick: generated)
-	cfg.SetRapid(cfg.N(60, 1500), 1)
+	cfg.SetRapid(cfg.N(300, 2500), 1)
 	rapid.Check(t, func(rt *rapid.T) {
 		c := Case{Format: rapid.SampledFrom([]string{"par2", "par1"}).Draw(rt, "format"), Name: rapid.SampledFrom(corpus).Draw(rt, "n1"), Name2: rapid.SampledFrom(corpus).Draw(rt, "n2"),
 			Pos: rapid.IntRange(0, 2).Draw(rt, "pos"), Present: rapid.Bool().Draw(rt, "present")}
@@ -285,7 +285,7 @@ func TestCheck(t *testing.T) {
 	})
 	// generated names from path fragments
 	frags := []string{"..", ".", "", "a", "sub", "x", "sibling", "\\", "..\\", "good1.dat", "l5", "arch", " ", "\x00"}
-	cfg.SetRapid(cfg.N(80, 3000), 2)
+	cfg.SetRapid(cfg.N(400, 5000), 2)
 	rapid.Check(t, func(rt *rapid.T) {
 		parts := rapid.SliceOfN(rapid.SampledFrom(frags), 1, 7).Draw(rt, "parts")
 		name := strings.Join(parts, "/")
